@@ -35,7 +35,7 @@ def main(p):
         pat = cell['pattern']
         shp = respath.shape(pat)
         srcname = {0: 'msg-field', 1: 'file-def', 2: 'child-type', 3: 'type-ref', 4: 'dep-file-def', 5: 'dep-msg-ref', 6: 'lro-response', 7: 'deep-ref',
-                   8: 'redeclared-common', 9: 'common', 10: 'in-resource-response', 11: 'map-value', 12: 'response-ref'}[cell['source']]
+                   8: 'redeclared-common', 9: 'common', 10: 'in-resource-response', 11: 'map-value', 12: 'response-ref', 13: 'deep-child-ref'}[cell['source']]
         b = getattr(C, cell['helper'] + '_path', None)
         q = getattr(C, 'parse_' + cell['helper'] + '_path', None)
         if b is None or q is None:
